@@ -36,6 +36,7 @@ func epochNS() int64 {
 	return S.epoch
 }
 
+//go:norace
 func Now() time.Time {
 	if S == nil {
 		return time.Now()
